@@ -19,6 +19,7 @@ func init() {
 			a.policiesImmutable("W.policies")
 			a.transitionsUnconditional("W.msg-state")
 			a.tlvParseLoopComplete("S.tlv-loop")
+			a.secretSizes("K.secret-size")
 			a.tlvLoopComplete("S.tlv-loop")
 			a.resendKeepsCopy("S.plaintext-retention")
 			a.akeContextDropped("S.ake-dropped")
